@@ -1398,6 +1398,7 @@ class Linker:
         self.__globals = {}
         self.__loader = loader
         self.__pendingImports = set()
+        self.__loadedImports = set()
 
     def AddModule(self, module: Module):
         self.__modules.append(module)
@@ -1412,8 +1413,14 @@ class Linker:
         self.__pendingImports.update(module.Imports)
 
     def Link(self) -> Program:
-        # add all imported modules
-        for importedModule in self.__pendingImports:
+        # add all imported modules. Adding a module can add further pending
+        # imports; every module is loaded only once, in a fixed order
+        while self.__pendingImports:
+            importedModule = min(self.__pendingImports)
+            self.__pendingImports.remove(importedModule)
+            if importedModule in self.__loadedImports:
+                continue
+            self.__loadedImports.add(importedModule)
             self.AddModule(self.__loader.Load(importedModule))
 
         return Program(self.__functions, self.__globals)
